@@ -16,6 +16,10 @@ CHECKS = {
   text="Coq theorems over a model of ROATable (bucketed Add/Delete/DeleteAll, Validate) and of the RTR client state machine (handleRTRMsg/HandleROAEvent): table maintenance refines set semantics on every reachable table; Validate is RFC 6811 (Valid / Invalid / NotFound exactly as defined, AS 0 never matches, AS_SET origin NotFound) for every table, path and route, as a function of the entry SET only; one complete cache response has exactly the documented effect from every state (replace on new session or outstanding Reset Query, else old minus withdrawn plus announced; other caches untouched); every other event's frame condition. Model tied to the code by differential execution (6k histories quick, real 1 s lifetime timers in a few cases) and two Python oracles (RFC 6811 over the implementation's own table dump; cache truth at in-sync points).",
   note="Trusted: Coq kernel; model, extraction, harness (pkg/server overlay hook drives HandleROAEvent like the Serve loop); critbit WalkMatch specified as containment and validated; IPv6 restricted to the top 64 bits; the history-level claim (table = announced-not-withdrawn) is proved per response and per event, its composition over whole histories is checked by the oracle, not stated as one theorem. No axioms.",
   tech="Coq proof (set-refinement of the bucketed table, case analysis of Validate, induction over the PDUs of a response) + differential correspondence", ref="DESIGN.md 5/C16"),
+ "C11": dict(
+  text="Coq theorems over a model of CreateUpdateMsgFromPaths / packerV4 / packerMP (last-action-wins de-duplication, per-family packers, grouping by attribute bytes and next hops, maxNLRIs chunking with Go's truncating division, the greedy byte-budget split): every emitted message fits the limit or carries exactly one route (oversize isolated, never a panic or a silent drop); the carried routes are as a multiset exactly the de-duplicated changes (no loss, no duplication) for every list/limit/ADD-PATH setting; last action per key wins; routes share a message only with identical attribute bytes and next hops; End-of-RIB kept. Because attribute bytes are abstracted to identities the theorems hold for every hash function and map order. Tie: differential execution against the real packer with byte-exact predicted sizes checked against Serialize (6k lists quick incl. 700-2500-route lists), plus a Python receiver oracle.",
+  note="Trusted: Coq kernel; model, extraction, harness; identity abstraction of attribute bytes (equal identity <=> bytes.Equal); attribute Len() = serialised length (C04); the receiver-side equivalence fold is checked by the oracle, the theorems give the multiset/last-action facts it follows from. Cross path-id coalescing on non-ADD-PATH sessions is outside C11's key (belongs to C01). No axioms.",
+  tech="Coq proof (integer arithmetic of the budgets, permutation/multiset reasoning over grouping and chunking) + differential correspondence with byte-exact size prediction", ref="DESIGN.md 5/C11"),
 }
 
 NOT_APPLICABLE = {}
